@@ -113,7 +113,11 @@ func GetPosition(ast MalType) *Position {
 func NewLispError(err MalType, ast MalType) LispError {
 	switch err := err.(type) {
 	case LispError:
-		err.cursor = GetPosition(ast)
+		if err.cursor == nil || err.cursor.Module == nil {
+			// keep the innermost position: an error that already knows in which
+			// module it happened is not moved to the form that merely propagates it
+			err.cursor = GetPosition(ast)
+		}
 		return err
 	default:
 		return LispError{
